@@ -51,6 +51,10 @@ def match(item):
     import fnmatch
     k = (item["kind"], item["fn"], item["root"], item["src"], item["op"])
     for b in BASELINE:
-        if b[0] == k[0] and fnmatch.fnmatchcase(k[1], b[1]) and fnmatch.fnmatchcase(k[2], b[2]) and b[3] == k[3] and b[4] == k[4]:
+        if b[0] == k[0] and fnmatch.fnmatchcase(k[1], b[1]) and fnmatch.fnmatchcase(k[2], b[2]) and b[4] == k[4] \
+                and (b[3] == k[3] or (b[3] == b[1] and k[0] == "E-param" and "*" not in b[1])):
+            # the same write of the same argument of the same entry function: confirmed harmless where it stands today, and no different when
+            # the statement moves into a private helper the entry function calls (the effect is identified by entry, argument and kind of
+            # write, not by the function whose body holds the statement)
             return b
     return None
